@@ -277,7 +277,8 @@ def cases(draw):
     reps = draw(st.sampled_from([1, 1, bulk])) if bulk > 1 else 1
     target = st.integers(-1, len(U) - 1)
     nq = len(roots) + len(U)
-    style = draw(st.sampled_from(["defects", "defects", "random", "identity", "cycle"]))
+    style = draw(st.sampled_from(["defects", "defects", "random", "identity", "cycle"] +
+                                 (["eom_and_stall"] * 2 if nroots >= 2 and variant in (0, 2) else [])))
     if style == "random":
         tab = [[draw(target) for _ in range(reps)] for _ in range(nq)]
     else:
@@ -287,6 +288,12 @@ def cases(draw):
                 q = draw(st.integers(0, nq - 1))
                 rep = draw(st.integers(0, reps - 1))
                 tab[q][rep] = draw(target)
+        elif style == "eom_and_stall":
+            # in ONE response: an earlier column answers endOfMibView while a later column does not advance
+            later = draw(st.integers(1, nroots - 1))
+            for rep in range(reps):
+                tab[0][rep] = -1
+                tab[later][rep] = 0          # U[0] is the OID before every root: smaller than the requested root
         elif style == "identity":
             q = draw(st.integers(len(roots), nq - 1))
             for rep in range(reps):
